@@ -35,6 +35,9 @@ def gen_world20(rng):
     G.gen_types(rng, w, max_types=4)
     G.gen_vocab(rng, w)
     ts = w.all_types()
+    if rng.random() < 0.5:          # argument positions beyond the second
+        w.preds.append(("p9", [("?a%d" % k, rng.choice(ts)) for k in range(3)]))
+        w.features.add("ternary-predicate")
     g2 = ("g2", [("?a0", rng.choice(ts)), ("?a1", rng.choice(ts))]) if rng.random() < 0.7 else None
     for i in range(rng.randint(1, 2)):
         a = G.gen_action(rng, w, i)
@@ -73,6 +76,49 @@ def build(rng, w, calls_per_action, noise=True):
             probes.append({"action": a["name"], "args": args})
     return {"domain_text": text, "objects": [list(o) for o in objs], "problem_text": objects_problem(objs),
             "probes": probes, "features": sorted(w.features), "world": w}
+
+
+# domain / problem pairs shipped under <repo>/tests.  The model and the independent spec reader (Spec/Grammar.v) read all of these
+# domains; fixtures with (:private ...) predicate blocks (multi-agent PDDL: blocks_ma_problem, domain-grinder0) are outside the spec reader.
+FIXTURES = [
+    ("exporters_tests/domain_spider.pddl", "exporters_tests/pfile01_spider.pddl"),
+    ("lisp_parsers_tests/depot_numeric_domain.pddl", "lisp_parsers_tests/pfile1_depot.pddl"),
+    ("lisp_parsers_tests/logistics_combined_domain.pddl", "lisp_parsers_tests/pfile_probLOGISTICS-14-0.pddl"),
+    ("lisp_parsers_tests/woodworking_combined_domain.pddl", "lisp_parsers_tests/woodworking_combined_problem.pddl"),
+    ("models_tests/advanced_minecraft_domain.pddl", "models_tests/advanced_map_instance_0.pddl"),
+    ("models_tests/domain_miconic.pddl", "models_tests/miconic_pfile_1-0.pddl"),
+    ("models_tests/miconic_learned_domain.pddl", "models_tests/miconic_pfile_1-0.pddl"),
+    ("models_tests/nurikabe_domain.pddl", "models_tests/nurikabe_problem.pddl"),
+    ("multi_agent_tests/blocks_socs_experiment/original_domain.pddl", "multi_agent_tests/blocks_socs_experiment/original_problem_3.pddl"),
+    ("multi_agent_tests/combined_domain.pddl", "multi_agent_tests/combined_problem.pddl"),
+    ("multi_agent_tests/depots_domain.pddl", "multi_agent_tests/depots_problem.pddl"),
+    ("multi_agent_tests/logistics_combined_domain.pddl", "multi_agent_tests/logistics_combined_problem.pddl"),
+    ("multi_agent_tests/multi_agent_problem/domain-glazer0.pddl", "multi_agent_tests/multi_agent_problem/problem-glazer0.pddl"),
+    ("multi_agent_tests/multi_agent_problem/domain-planer0.pddl", "multi_agent_tests/multi_agent_problem/problem-planer0.pddl"),
+    ("multi_agent_tests/multi_agent_problem/domain-saw0.pddl", "multi_agent_tests/multi_agent_problem/problem-saw0.pddl"),
+    ("multi_agent_tests/sokoban_domain.pddl", "multi_agent_tests/sokoban_problem.pddl"),
+    ("multi_agent_tests/woodworking_domain.pddl", "multi_agent_tests/prob_woodworking_01.pddl"),
+]
+
+
+def fixture_worlds(rng, tier, only=None):
+    """runs the fixture op (it samples the calls itself) and returns (worlds, results) in the shape of the generated stream"""
+    pairs = FIXTURES if tier == "thorough" else rng.sample(FIXTURES, 6)
+    jobs = [{"op": "c20.fixture", "domain": d, "problem": p, "seed": rng.randrange(10 ** 6), "ncalls": 6 if tier == "thorough" else 3,
+             "nstates": 1, "want": "ground"} for d, p in pairs]
+    if only is not None:
+        jobs = [{"op": "c20.fixture", "domain": only["fixture"][0], "problem": only["fixture"][1], "seed": 0,
+                 "calls": only["probes"], "nstates": 1, "want": "ground"}]
+        pairs = [tuple(only["fixture"])]
+    worlds, results = [], []
+    for (d, p), r in zip(pairs, run_impl(jobs, nproc=min(8, len(jobs)))):
+        if "probes" not in r:
+            raise RuntimeError("fixture %s / %s is no longer readable by the implementation: %r" % (d, p, r.get("parse_raised")))
+        worlds.append({"domain_text": r["domain_text"], "objects": r["objects"], "problem_text": None, "fixture": [d, p],
+                       "probes": [{"action": q["action"], "args": q["args"]} for q in r["probes"]],
+                       "features": ["fixture:" + d], "world": None})
+        results.append({"nums": r["nums"], "probes": [q["obs"] for q in r["probes"]]})
+    return worlds, results
 
 
 def corpus():
@@ -145,7 +191,9 @@ def klass_of(wd, pr, unit):
     """which open finding class a not-ok verdict of this unit would belong to (rough, for attribution only)"""
     w = wd.get("world")
     if w is None:
-        return wd.get("witness_of")
+        if wd.get("witness_of") or not wd.get("fixture"):
+            return wd.get("witness_of")
+        return "D38" if "forall" in wd["domain_text"].lower() else "D07"     # fixtures: Coq's classifier decided 'known'
     a = [x for x in w.actions if x["name"] == pr["action"]][0]
     if unit == 0:
         return "D38" if has_forall(a["pre"]) else "D07"
@@ -186,11 +234,15 @@ def run(args):
     standard_proof_part(rep, PROP)
     rng = random.Random(args.seed * 104729 + 20)
     cfg = run_impl([{"op": "core.numeric_config"}], nproc=1)[0]
+    fixture_only = None
     if args.replay:
         data = json.load(open(args.replay))
         wd = data["input"]["world"]
         wd.setdefault("world", None)
-        worlds = [wd]
+        if wd.get("fixture"):
+            fixture_only, worlds = wd, []
+        else:
+            worlds = [wd]
     else:
         worlds = corpus()
         n, calls = {"quick": (80, 5), "thorough": (900, 8)}[args.tier]
@@ -202,26 +254,36 @@ def run(args):
              "effect_groups": 0, "effect_literals": 0, "effect_numeric": 0, "typed_call_raised": 0, "ground_raised": 0,
              "features": {}}
     lits, units, cases = [], [], []
+    streams = []
     for hs in hashseeds:
         jobs = [{"op": "c20.world", "domain_text": wd["domain_text"], "problem_text": wd["problem_text"],
                  "probes": wd["probes"]} for wd in worlds]
-        results = run_impl(jobs, hashseed=hs)
-        for wd, res in zip(worlds, results):
+        streams.append((hs, worlds, run_impl(jobs, hashseed=hs)))
+    if fixture_only is not None or not args.replay:
+        fw, fr = fixture_worlds(rng, args.tier, fixture_only)
+        streams.append((hashseeds[0] if worlds else -1, fw, fr))
+        stats["fixtures"] = len(fw)
+    first = True
+    for hs, ws, results in streams:
+        count = first or ws is not worlds
+        first = False
+        for wd, res in zip(ws, results):
             if "probes" not in res:
                 raise RuntimeError("the implementation rejected a generated world: %r\n%s" % (
                     {k: res.get(k) for k in ("parse_raised", "problem_raised", "raised", "msg")}, wd["domain_text"]))
             lit = case_literal(wd, res, cfg["epsilon"])
             lits.append(lit)
             units.append(3 * len(wd["probes"]))
-            if hs == hashseeds[0]:
+            if count:
                 stats["worlds"] += 1
                 for f in wd["features"]:
                     stats["features"][f] = stats["features"].get(f, 0) + 1
             for pi, (pr, r) in enumerate(zip(wd["probes"], res["probes"])):
-                if hs == hashseeds[0]:
+                if count:
                     call_stats(stats, wd, pr, r)
                 for unit, uname in enumerate(("precondition", "effects", "call")):
-                    inp = {"world": {"domain_text": wd["domain_text"], "objects": wd["objects"], "problem_text": wd["problem_text"],
+                    inp = {"world": {"domain_text": wd["domain_text"] if not wd.get("fixture") else None, "objects": wd["objects"],
+                                     "problem_text": wd["problem_text"], "fixture": wd.get("fixture"),
                                      "probes": [pr], "features": wd["features"]},
                            "unit": uname, "hashseed": hs, "implementation": r}
                     wit = wd.get("witness_of")
@@ -238,14 +300,17 @@ def run(args):
     cov["input_distribution"] = stats
     cov["hash_seeds"] = hashseeds
     cov["exhaustive"] = False
-    cov["rule"] = ("generated typed domains (pddlgen: <=4 types in any order, constants, 2-4 predicates of arity <=2, <=3 functions of arity <=1, "
+    cov["rule"] = ("generated typed domains (pddlgen: <=4 types in any order, constants, 2-4 predicates of arity <=2 and in half of the worlds a ternary one, <=3 functions of arity <=1, "
                    "plus a binary function g2 used with distinct lifted arguments in a precondition and/or an unconditional effect; and/or/not/=/"
                    "forall/comparison preconditions; add/del/assign/increase/decrease/when/forall-when effects), 2-3 objects, up to 5 (quick) / 8 "
                    "(thorough) type-correct calls per action drawn from all tuples over objects and constants conforming by SUBTYPE (so repeated "
+                   "objects, constants in any position and subtype narrowing occur; counted below); plus shipped fixtures: domain/problem pairs under "
+                   "<repo>/tests (6 of 17 in quick, all in thorough) with calls over the problem's objects, half of them applicable in the initial state (so repeated "
                    "objects, constants in any position and subtype narrowing occur; counted below).  Three verdicts per call: precondition "
                    "(iterated literals with both texts, numeric trees, (in)equality pairs), effect groups (antecedent, add/delete literals, numeric "
                    "effects), call texts (typed_action_call with / without objects, str).  Sets are compared as sets.  A verdict is non-trivial "
                    "when the call has arguments and the compared collection is non-empty; distinct by input hash.")
-    cov["samples"] = [{"domain": c["input"]["world"]["domain_text"][:400], "probe": c["input"]["world"]["probes"][0]} for c in cases[-2:]]
+    cov["samples"] = [{"domain": (c["input"]["world"]["domain_text"] or str(c["input"]["world"]["fixture"]))[:400],
+                       "probe": c["input"]["world"]["probes"][0]} for c in cases[:1] + cases[-2:]]
     rep.assumptions = ["ASCII text", "calls have as many arguments as the action has parameters"]
     return rep.finish()
